@@ -25,3 +25,7 @@ package trie
 //@     invariant 0 <= $iter && $iter <= 15 && -1 <= j && j <= 7 && n == nb() - 8 * $iter - (7 - j) && n > 0
 //@     invariant len(buf.$content) == 8 * $iter + (7 - j)
 //@     invariant forall k int {buf.$content[k]} :: 0 <= k && k < 8 * $iter + (7 - j) ==> buf.$content[k] == 48 + bitAt(k)
+
+//@ func (*ValidChars).IsValidChar
+//@   requires v != nil
+//@   ensures result == (v.table[c] > 0 || c == v.zeroChar)
